@@ -268,6 +268,17 @@ def t_augassign(n):
     i -= 1
     i *= 3
     return (xs, ys, s, i)
+def t_augassign_effect(n):
+    log = []
+    def f(k):
+        log.append(k)
+        return k
+    i = 0
+    i += f(n)
+    i -= f(1)
+    d = {"a": 0}
+    d["a"] += f(2)
+    return (i, log, d)
 def t_any_exc(xs): return any(x > 1 for x in xs)
 def t_ternary_chain(x): return "neg" if x < 0 else "zero" if x == 0 else "pos"
 def t_str_index(s, a): return (s[a], s[-1], s[0:1])
@@ -326,7 +337,7 @@ CASES = {
     "t_alias": [(1,), ("a",)], "t_nested_alias": [()], "t_dict_bool_keys": [()], "t_call_default": [()], "t_finally_return": [()], "t_reraise": [(0,), (3,)],
     "t_typeerrors": [(k, x) for k in range(9) for x in [None, 1, "a", [1], True]], "t_boolint": [(a, b) for a in [True, False, 0, 1, 2] for b in [True, 1, 0]],
     "t_str_strip_chars": [(s, t) for s in STRS for t in SHORT], "t_str_more": [(s, t) for s in STRS for t in SHORT], "t_str_pct": [(a, b) for a in ["x", "%s", ""] for b in [1, "y", -2]], "t_repr": [(s,) for s in ["", "a", "it's", 'say "hi"', "back\\slash", "tab\t", "é", "both ' and \""]],
-    "t_minmax": [(xs,) for xs in [[1], [3, 1, 2], ["b", "a"], [], [1, "a"]]], "t_notin": [(x, xs) for x in [1, None, "a", True] for xs in LISTS], "t_augassign": [(n,) for n in [0, 5]],
+    "t_minmax": [(xs,) for xs in [[1], [3, 1, 2], ["b", "a"], [], [1, "a"]]], "t_notin": [(x, xs) for x in [1, None, "a", True] for xs in LISTS], "t_augassign": [(n,) for n in [0, 5]], "t_augassign_effect": [(n,) for n in [0, 5]],
     "t_any_exc": [(xs,) for xs in [[], [0, 2], [0, "a"], [5, "a"]]], "t_ternary_chain": [(x,) for x in [-1, 0, 1]], "t_str_index": [(s, a) for s in ["", "a", "abc"] for a in SMALL],
     "t_dict_order": [()], "t_od_order": [("a",), ("b",), ("c",), ("q",)], "t_islice_neg": [(a, b) for a in [-1, 0, 1, None] for b in [-1, 0, 2, None]],
     "t_int_conv": [(x,) for x in [None, True, 3, "7", " 8 ", "x", "", [1], "1e3", "٣"]], "t_str_conv": [(x,) for x in [None, True, False, 3, -4, "s", 10**30]], "t_len": [(x,) for x in [None, 3, "abc", [1, 2], {"a": 1}, True]],
